@@ -108,7 +108,9 @@ Asg2Grammars == Map1(Asg2Bodies, LAMBDA e : G(<<Ru("M", e)>>))
 \* D (abstract through a cycle: 'a' 'a' C | K), K (single-match rule)
 KA == Ru("A", As("v", "=", Rf("INT"), NoSep, FALSE))
 KB == Ru("B", Sq(<<Ta, Tb>>))
-KC == Ru("C", Al(<<Rf("D"), Rf("A"), Sq(<<Tb, Rf("A")>>), Rf("B")>>))
+KC == Ru("C", Al(<<Rf("D"), Rf("A"), Sq(<<Tb, Rf("A")>>), Rf("B"), Sq(<<Rf("K"), Rf("E")>>)>>))
+\* E is generalized by C only through the alternative that starts with a match-rule reference
+KE == Ru("E", As("e", "=", Rf("ID"), NoSep, FALSE))
 \* D is abstract only through the edge back into the cycle C -> D -> C
 KD == Ru("D", Al(<<Sq(<<Ta, Ta, Rf("C")>>), Rf("K")>>))
 KK == Ru("K", Tab)
@@ -116,7 +118,7 @@ K0 == <<Rf("A"), Rf("B"), Rf("C"), Rf("K"), Ta, Rf("INT")>>
 K1 == Cat(K0, Cat(Binary(K0, K0), Map1(K0, LAMBDA e : As("w", "=", e, NoSep, FALSE))))
 K2 == Cat(K1, Cat(Binary(K1, K0), Binary(K0, K1)))
 KindBodies == IF Depth = 2 THEN K2 ELSE K1
-KindGrammars == Map1(KindBodies, LAMBDA e : G(<<Ru("M", e), KA, KB, KC, KD, KK>>))
+KindGrammars == Map1(KindBodies, LAMBDA e : G(<<Ru("M", e), KA, KB, KC, KD, KK, KE>>))
 
 \* whitespace modes: M over N (noskipws), W (ws=' '), P (plain), with eolterm repetitions and a Comment rule
 MN == RuM("N", Sq(<<Ta, Tb>>), "off", <<>>)
